@@ -469,7 +469,9 @@ func (r *Relayer) handleCallReq(f *lazyCallReq) (shouldRelease bool, _ error) {
 	remoteConn, ok, err := r.getDestination(f, call)
 	if err == nil && ok {
 		if canHandle, state := remoteConn.relay.canHandleNewCall(); !canHandle {
-			err = NewWrappedSystemError(ErrCodeNetwork, errConnNotActive{"selected remote", state})
+			// Not a SystemError, so that the wrap below decides the code sent to
+			// the caller (NewWrappedSystemError keeps the code of a SystemError).
+			err = errConnNotActive{"selected remote", state}
 			call.Failed("relay-remote-inactive")
 			r.conn.SendSystemError(f.Header.ID, f.Span(), NewWrappedSystemError(ErrCodeDeclined, err))
 		}
